@@ -469,7 +469,12 @@ static size_t strm_write(const void* ptr, size_t size, size_t count, void* ud)
     size_t c = s->chunk ? s->chunk : total;
     if (c > total - done)
       c = total - done;
-    s->img->p = (uint8_t*) realloc(s->img->p, s->img->n + c + 1);
+    if (s->img->n + c + 1 > s->limit)
+    {
+      // capacity doubling (limit is reused as the capacity of the image buffer)
+      s->limit = (s->img->n + c + 1) * 2 + 4096;
+      s->img->p = (uint8_t*) realloc(s->img->p, s->limit);
+    }
     memcpy(s->img->p + s->img->n, p + done, c);
     s->img->n += c;
     done += c;
